@@ -62,7 +62,11 @@ Distinct8(t) == Cardinality({t[i] : i \in Idents}) = 8
 \* same text and the one listed first - ROOT - wins; only the lexer model is consulted for it (MC_Lexer), the property itself
 \* speaks of distinct spellings
 Colliding == {[DefaultTok EXCEPT !.root = <<94>>], [DefaultTok EXCEPT !.self = <<35>>]}
-Init == /\ IF Universe = "collide" THEN assign \in Colliding ELSE
+\* the default spellings handed to other roles (distinct, non-overlapping, but each means something else than by default)
+Swaps == {[DefaultTok EXCEPT !.keys = <<35>>, !.key = <<126>>], [DefaultTok EXCEPT !.root = <<64>>, !.self = <<36>>],
+          [DefaultTok EXCEPT !.union = <<38>>, !.inter = <<124>>], [DefaultTok EXCEPT !.fake = <<95>>, !.ctx = <<94>>]}
+Init == /\ IF Universe = "swaps" THEN assign \in Swaps ELSE
+           IF Universe = "collide" THEN assign \in Colliding ELSE
            IF Universe \in {"pairs", "prefix"} THEN assign \in {t \in Assignments : Distinct8(t)}
            ELSE \E n \in 1..200 : assign = [i \in Idents |-> RandomElement(Pool)] /\ Distinct8(assign)
         /\ prog \in (IF Universe = "collide" THEN {pr \in Programs : LET t == RenderCompound(pr.first, pr.rest, StdStyle) IN \A j \in 1..Len(t) : t[j] \notin {94, 35}}
